@@ -29,12 +29,15 @@ MANIFEST = dict(
          "(test exchange rates) + the function's module; all must type-check and evaluate. Machine-checked part "
          "(C24_in_fragment_partial, Coq vm_compute over a finite generated list): for the snippets whose needed library "
          "definitions (extracted verbatim from numbat/modules/**/*.nbt, transitive closure) stay inside the fragment of the "
-         "composed pipeline model — Syntax lexer/parser -> Dim type checker -> VM compiler/machine, integers, booleans, "
-         "strings, lists, generic/recursive functions, a few foreign primitives; no units, floats, structs, function "
-         "values, string interpolation, dates — the model parses, type-checks, compiles and runs library and snippet, "
+         "composed pipeline model — Syntax lexer/parser -> Dim type checker -> VM compiler/machine; scalars are exact "
+         "rationals (decimal, hex, octal and binary literals; an operation whose f64 result would not be that exact rational, or "
+         "whose decimal rendering needs more than 6 significant digits, is out of the fragment), booleans, strings with "
+         "interpolation, lists, generic/recursive functions, `x -> f` and `x |> f(..)` calls, about 30 foreign primitives "
+         "(lists, strings, rounding, abs/mod, error, parse of plain numbers, log2/log10 of exact powers); no units, no irrational or transcendental results, no NaN/inf, structs, "
+         "function values, format specifiers, dates — the model parses, type-checks, compiles and runs library and snippet, "
          "and every one of them yields a value; that value is compared with the implementation's output. The share of "
-         "snippets inside the fragment is measured on every run and written to the evidence (a minority: most "
-         "examples use units or floats); the rest is executed on the implementation only.",
+         "snippets inside the fragment is measured on every run and written to the evidence (currently 69 of 177 = 39.0 %; "
+         "the others use units, dates, function values or inexact floats); the rest is executed on the implementation only.",
     design_ref="design/dim.md (phase 5); properties.jsonl C24",
     note="Trusted: Coq kernel + vm_compute; the three hand-written models and the glue translations "
          "(Pipeline/Glue.v; not proved against each other beyond their own properties C10/C02/C09); the source "
@@ -102,19 +105,56 @@ def library_sources(repo):
 IDENT = re.compile(r"[A-Za-z_][A-Za-z_0-9]*")
 
 
+NUMBER = re.compile(r"\b0x[0-9a-fA-F_]+|\b0b[01_]+|\b0o[0-7_]+|\b\d[\d_]*(?:\.\d[\d_]*)?(?:[eE][-+]?\d+)?")
+
+
+def _string_code(m):
+    """what is code inside a string literal: the expressions of its {…} interpolations"""
+    return " " + " ".join(part.split(":")[0] for part in re.findall(r"\{([^{}]*)\}", m.group(0))) + " "
+
+
 def idents(text):
-    text = re.sub(r'"(?:[^"\\]|\\.)*"', '""', text)
+    text = re.sub(r'"(?:[^"\\]|\\.)*"', _string_code, text)
+    text = re.sub(r"#[^\n]*", "", text)          # comments (strings are gone)
+    text = NUMBER.sub(" ", text)
     return set(IDENT.findall(text))
+
+
+def _param_list(src):
+    """text between the parentheses of the parameter list (types may contain parentheses: Fn[(A) -> B])"""
+    m = re.match(r"fn\s+\w+\s*(?:<([^>]*)>)?\s*\(", src, re.S)
+    if not m:
+        return None, None
+    depth, i = 1, m.end()
+    while i < len(src) and depth:
+        depth += {"(": 1, ")": -1}.get(src[i], 0)
+        i += 1
+    return m.group(1) or "", src[m.end():i - 1]
+
+
+def _split_top(text):
+    out, depth, cur = [], 0, ""
+    for c in text.replace("->", "\u2192"):
+        if c in "([<":
+            depth += 1
+        elif c in ")]>":
+            depth -= 1
+        if c == "," and depth == 0:
+            out.append(cur)
+            cur = ""
+        else:
+            cur += c
+    return out + [cur]
 
 
 def bound_names(src):
     """parameters, type parameters and where-locals of a definition"""
     names = set()
-    m = re.match(r"fn\s+\w+\s*(?:<([^>]*)>)?\s*\(([^)]*)\)", src, re.S)
-    if m:
-        for tp in (m.group(1) or "").split(","):
+    tps, ps = _param_list(src)
+    if ps is not None:
+        for tp in tps.split(","):
             names |= set(IDENT.findall(tp.split(":")[0]))
-        for p in m.group(2).split(","):
+        for p in _split_top(ps):
             n = IDENT.findall(p.split(":")[0])
             names |= set(n[:1])
     for w in re.finditer(r"\b(?:where|and)\s+([A-Za-z_]\w*)\s*(?::[^=]*)?=", src):
@@ -305,7 +345,8 @@ def run(chk):
                    [{"function": e["fn"], "input": e["code"], "implementation": e["text"]} for e in exs[:3]],
     })
     chk.assumptions += ["test exchange rates stand in for live currency data",
-                        "the model fragment has integer scalars only; examples with units/floats are executed on the implementation only"]
+                        "the model fragment has exact rational scalars only; examples with units, inexact floats, dates or function values are executed on the implementation only",
+                        "interpolated strings are type-checked through the pseudo foreign function `{}<T>(x: T) -> String` (Pipeline/Glue.v tc_interp)"]
 
 
 def replay(path):
